@@ -396,8 +396,10 @@ func RunCheck(p *Prop, tier string) int {
 					rest = rest[:j]
 				}
 				otherKeys[rest]++
-			} else if (v.Failure.Kind == "crash" || v.Failure.Kind == "hang") && !strings.Contains(string(outb), "REPLAY-RESULT") {
-				ok++ // died or hung again before reporting
+			} else if v.Failure.Kind == "hang" && strings.Contains(string(outb), "REPLAY-HANG") {
+				ok++ // hung again
+			} else if v.Failure.Kind == "crash" && !strings.Contains(string(outb), "REPLAY-RESULT") && !strings.Contains(string(outb), "HARNESS-ERROR") && !strings.Contains(string(outb), "REPLAY-HANG") {
+				ok++ // the process died again before reporting
 			}
 		}
 		if ok < 5 && len(otherKeys) == 1 {
